@@ -65,6 +65,16 @@ func init() {
 	c("bencode-assert-wrong", "C16.bencode.row", be, `d.FieldUTF8("separator", 1, d.StrAssert(":"))`, `d.FieldUTF8("separator", 1, d.StrAssert(";"))`, "arm:0")
 	c("mp-range-loop-bound", "C16.msgpack.row", mp, "for i := uint64(0); i < length; i++ {\n\t\t\t\t\td.FieldStruct(\"element\"", "for range length + 1 {\n\t\t\t\t\td.FieldStruct(\"element\"", "row:fixarray")
 
+	// round 4: xml namespace scope stack, asn1 REAL
+	xm := "format/xml/xml.go"
+	c("xml-ns-order", "C16.xml.ns", xm, "for i := len(nss) - 1; i >= 0; i-- {\n\t\tns := nss[i]\n", "for _, ns := range nss {\n", "lookup:order")
+	c("xml-ns-start", "C16.xml.ns", xm, "for i := len(nss) - 1; i >= 0; i-- {", "for i := len(nss) - 2; i >= 0; i-- {", "lookup:order")
+	c("xml-ns-field", "C16.xml.ns", xm, `if name.Space == ns.url {`, `if name.Space == ns.name {`, "lookup:match")
+	c("xml-ns-store", "C16.xml.ns", xm, `xmlNS{name: name, url: url}`, `xmlNS{name: url, url: name}`, "lookup:match")
+	c("xml-ns-push-args", "C16.xml.ns", xm, "f = func(n xmlNode, seq int, nss xmlNNStack) (string, any) {\n\t\tattrs := map[string]any{}\n\n\t\tfor _, a := range n.Attrs {\n\t\t\tlocal, space := a.Name.Local, a.Name.Space\n\t\t\tif space == \"xmlns\" {\n\t\t\t\tnss = nss.push(local, a.Value)", "f = func(n xmlNode, seq int, nss xmlNNStack) (string, any) {\n\t\tattrs := map[string]any{}\n\n\t\tfor _, a := range n.Attrs {\n\t\t\tlocal, space := a.Name.Local, a.Name.Space\n\t\t\tif space == \"xmlns\" {\n\t\t\t\tnss = nss.push(a.Value, local)", "push:fromXMLToObject:prefixed")
+	c("asn1-real-exp", "C16.asn1.row", as, `exp = d.FieldS24("exp")`, `exp = d.FieldS32("exp")`, "tag:real")
+	c("asn1-real-base", "C16.asn1.row", as, `0b01: 8,`, `0b01: 10,`, "tag:real")
+
 	// text
 	c("text-yaml-eof", "C16.text.eof", "format/yaml/yaml.go", `!errors.Is(err, io.EOF) {`, `err != nil && !errors.Is(err, io.EOF) {`, "yaml:eof")
 	c("text-json-eof", "C16.text.eof", "format/json/json.go", `(len(vs) != 1 || !foundEOF)`, `(len(vs) < 1 || !foundEOF)`, "json:eof")
